@@ -74,6 +74,8 @@ type Runner struct {
 	ReplayFn  func(v *Viol) (reproduced bool, detail string)
 	distinct  sync.Map
 	distinctN atomic.Int64
+	// MC: report the model-checking evidence keys (states, transitions, traces) from the counters of the same names.
+	MC bool
 	// MaxWorkers limits the parallelism of following sweeps (0 = all workers).
 	MaxWorkers int
 	// HangLimit is the watchdog threshold in seconds for following sweeps (0 = HangSeconds).
@@ -498,6 +500,11 @@ func (r *Runner) finish(aborted bool) int {
 		"counters":            r.counters,
 		"workers":             r.Workers,
 		"known_findings_seen": len(knownSeen),
+	}
+	if r.MC {
+		cov["states"] = r.counters["states"]
+		cov["transitions"] = r.counters["transitions"]
+		cov["traces_validated_against_impl"] = r.counters["traces_validated"]
 	}
 	for k, v := range r.Extra {
 		cov[k] = v
